@@ -293,7 +293,9 @@ func (env *ExecEnv) expandParam(fields []*field, pe *ast.ParamExp, mode ExpMode)
 		// string length
 		if pe.Op == "#" {
 			switch {
-			case set:
+			case !set && env.Opts&NoUnset != 0:
+				goto Unset
+			default:
 				var n int
 				if pe.Name.Value == "@" {
 					n = len(a)
@@ -301,8 +303,6 @@ func (env *ExecEnv) expandParam(fields []*field, pe *ast.ParamExp, mode ExpMode)
 					n = utf8.RuneCountInString(a[0])
 				}
 				fields[len(fields)-1].join(strconv.Itoa(n), quote)
-			case !set && env.Opts&NoUnset != 0:
-				goto Unset
 			}
 		}
 	default:
